@@ -23,7 +23,7 @@ def run(ctx):
         if S is not None and "norm" in S:
             lib_reader.sibling_check(ctx, S)
             R.floor("SIB", 8)
-            R.floor("PANIC", 6)
+            R.floor("PANIC", 3)
             R.floor("ALG", 2)
     except ImportError:
         R.notes.append("SIB / PANIC not built yet")
